@@ -704,6 +704,11 @@ func (cv *Conv) Exec(e *Edge) (divs []evid.Div, fatal error) {
 		}
 		divs = append(divs, evid.Div{Prop: prop, Key: fmt.Sprintf("replies:%s:%s", e.Lbl.Cmd.String(), srcClass(e)),
 			Msg: fmt.Sprintf("%s: expected replies %v, got %v", ctx, exp, st.Replies), Replay: rp()})
+		if prop != "C04" && len(rs) != len(exp) {
+			// whatever else it is, the NUMBER of replies is C04's ("exactly one reply per command ... until it closes")
+			divs = append(divs, evid.Div{Prop: "C04", Key: fmt.Sprintf("reply-count:%s:%s", e.Lbl.Cmd.String(), srcClass(e)),
+				Msg: fmt.Sprintf("%s: expected %d replies %v, got %d: %v", ctx, len(exp), exp, len(rs), st.Replies), Replay: rp()})
+		}
 		if cc := e.Lbl.Cmd.C; prop != "C07" && (strings.HasPrefix(cc, "BDAT") || strings.HasPrefix(cc, "DATA")) {
 			// a positive reply where the specification has none: something was
 			// reported as received that did not arrive
@@ -805,6 +810,27 @@ func (cv *Conv) Exec(e *Edge) (divs []evid.Div, fatal error) {
 		}
 		divs = append(divs, evid.Div{Prop: prop, Key: fmt.Sprintf("callbacks:%s:%s", e.Lbl.Cmd.String(), srcClass(e)),
 			Msg: fmt.Sprintf("%s: expected callbacks %v, got %v", ctx, e.Lbl.Cbs, st.Cbs), Replay: rp()})
+		afterRan := closing && strings.Contains(fmt.Sprint(st.Cbs), "after@")
+		if afterRan && prop != "C08" {
+			// a command pipelined behind the step that gave the connection up reached the backend
+			divs = append(divs, evid.Div{Prop: "C08", Key: fmt.Sprintf("after-ran:%s:%s", e.Lbl.Cmd.String(), srcClass(e)),
+				Msg: fmt.Sprintf("%s: a command sent behind the closing step was executed: expected callbacks %v, got %v", ctx, e.Lbl.Cbs, st.Cbs), Replay: rp()})
+		}
+		if (afterRan || prop == "C08" && closing && len(gotSeq) > len(expSeq)) && (e.Lbl.Cmd.C == "DATA" || strings.HasPrefix(e.Lbl.Cmd.C, "BDAT")) {
+			// the connection was given up in the middle of a transfer and the server read on:
+			// what it read on into is the unread rest of the message (C02 / C05)
+			tp := "C02"
+			if strings.HasPrefix(e.Lbl.Cmd.C, "BDAT") {
+				tp = "C05"
+			}
+			divs = append(divs, evid.Div{Prop: tp, Key: fmt.Sprintf("read-on-after-giving-up:%s:%s", e.Lbl.Cmd.String(), srcClass(e)),
+				Msg: fmt.Sprintf("%s: the server went on reading commands after it had given up the connection inside a transfer: expected callbacks %v, got %v", ctx, e.Lbl.Cbs, st.Cbs), Replay: rp()})
+		}
+		if prop == "C10" && strings.Count(strings.Join(expSeq, ","), "Logout") != strings.Count(strings.Join(gotSeq, ","), "Logout") {
+			// a session logged out too often, too early or not at all is C08's business whatever the command
+			divs = append(divs, evid.Div{Prop: "C08", Key: fmt.Sprintf("logout:%s:%s", e.Lbl.Cmd.String(), srcClass(e)),
+				Msg: fmt.Sprintf("%s: expected callbacks %v, got %v", ctx, e.Lbl.Cbs, st.Cbs), Replay: rp()})
+		}
 		if prop == "C07" && e.Src.Bdat != "none" {
 			// a chunked transfer: "end-of-file only after the LAST chunk" is C05's clause as well
 			divs = append(divs, evid.Div{Prop: "C05", Key: fmt.Sprintf("eof-without-last:%s:%s", e.Lbl.Cmd.String(), srcClass(e)),
